@@ -300,6 +300,16 @@ def extract(repo):
         if not re.search(r"\b%s\s*\(\s*output\s*,\s*outputByteLen\s*,\s*input\s*,\s*inputByteLen\s*\)\s*;" % fam, b):
             raise TranslateError("%s does not forward (output, outputByteLen, input, inputByteLen) to %s" % (fam.upper(), fam))
     d["wr"] = wr
+    # ---- the control code of the sponge (loops over byte positions, s_inc[25] bookkeeping): hand-modelled in
+    # SqiModel.Sponge and tied by correspondence; here a tripwire: the model is a model of exactly this text
+    import json
+    golden = json.load(open(os.path.join(os.path.dirname(os.path.abspath(__file__)), "fips202_control_text.json")))
+    for fn, (a, b) in golden.items():
+        ar, bo = find_function(src, fn)
+        na, nb = re.sub(r"\s+", " ", ar).strip(), re.sub(r"\s+", " ", bo).strip()
+        if na != a or nb != b:
+            raise TranslateError("%s: the sponge control code differs from the text SqiModel.Sponge models (tools/translate/"
+                                 "fips202_control_text.json); re-validate the hand model, then refresh the accepted text" % fn)
     return d
 
 
